@@ -11,7 +11,10 @@
 (* cfg.chain[s] : what the entry action of s requests when the causing event's data has  *)
 (*     chain = 1:  [on, goto (0 = table event), e, tag, prop (chain flag of the new      *)
 (*     event), double (the request is made twice)]                                       *)
-(* Event data: [tag, chain, cond, condf]; cond / condf are the scripted results of the   *)
+(* cfg.xchain[s] : BOOLEAN - the exit action of s sends an event to its own FSM when the *)
+(*     causing event's data has xc = 1: always a forbidden recursive event() call        *)
+(*     (property C11: the only permitted window is the entry action)                     *)
+(* Event data: [tag, chain, cond, condf, xc]; cond / condf are the scripted results of   *)
 (* cond_EVENT method / instance function.                                                *)
 (*                                                                                       *)
 (* Handle(cfg, st, out, ev) is the complete observable effect of one event() call:       *)
@@ -61,6 +64,9 @@ Request(cfg, st, out, ch, d, log) ==
          ELSE [acc |-> CondTrue(cfg, ch.e, d), target |-> t,
                log |-> log \o Cbs("cond", cfg.cond[ch.e], ch.e, d.tag, d.tag)]
 
+(* the exit action of state s sends an event to its own FSM: refused, fatal *)
+XExit(cfg, s, d) == cfg.exit[s] # 0 /\ cfg.xchain[s] /\ d.xc = 1
+
 (* one link: enter `target` because of the event with data d; d0 = data of the first    *)
 (* event of the chain; k = entry actions already run in this chain                       *)
 RECURSIVE Link(_, _, _, _, _, _, _)
@@ -72,7 +78,7 @@ Link(cfg, target, d, d0, out, k, log) ==
         ch   == cfg.chain[target]
         sch  == IF ChainUpdatesCtx THEN d.chain ELSE d0.chain      \* the flag the action reads
     IN  IF ch.on /\ sch = 1
-        THEN LET nd  == [tag |-> ch.tag, chain |-> ch.prop, cond |-> 1, condf |-> 1]
+        THEN LET nd  == [tag |-> ch.tag, chain |-> ch.prop, cond |-> 1, condf |-> 1, xc |-> d.xc]
                  req == Request(cfg, target, out, ch, nd, log1)
                  \* the requesting entry action goes on after event() returned and must still
                  \* see the data of its own event
@@ -83,6 +89,7 @@ Link(cfg, target, d, d0, out, k, log) ==
                        THEN Finish(cfg, target, out, Aft(Request(cfg, target, out, ch, nd, req.log).log))
                        ELSE Finish(cfg, target, out, Aft(req.log)))
                  ELSE IF ch.double THEN Result("error", target, out, req.log)   \* two requests
+                 ELSE IF XExit(cfg, target, nd) THEN Result("error", target, out, req.log)
                  ELSE LET seenx == IF ChainUpdatesCtx THEN nd.tag ELSE d0.tag IN
                       Link(cfg, req.target, nd, d0, out, k + 1,
                            Aft(req.log) \o Cbs("exit", cfg.exit[target], target, seenx, nd.tag))
@@ -99,6 +106,7 @@ Handle(cfg, st, out, ev) ==
         condok == ev.goto # 0 \/ out = UNDEF \/ CondTrue(cfg, ev.e, d)
     IN  IF t <= 0 THEN Result("false", st, out, NoTrans(cfg, ev.e, st))
         ELSE IF ~condok THEN Result("false", st, out, condlog)
+        ELSE IF out # UNDEF /\ XExit(cfg, st, d) THEN Result("error", st, out, condlog)
         ELSE LET exitlog == IF out # UNDEF
                             THEN Cbs("exit", cfg.exit[st], st, d.tag, d.tag) \o
                                  (IF cfg.on_exit[st] THEN <<Rec("on_exit", st, 0, 0, out, 0, 0)>> ELSE <<>>)
